@@ -12,6 +12,7 @@ from __future__ import annotations
 
 import dataclasses
 import enum
+import functools
 import inspect
 import itertools
 import struct
@@ -74,7 +75,11 @@ def field_slots(spec, shape: List[int], prev: List[Slot]) -> List[Slot]:
         if 'size' in spec:
             return field_slots(spec['size'], shape, prev)
         parser = spec.get('parser')
-        nl = inspect.getclosurevars(parser).nonlocals if parser else {}
+        if _is_string_parser(parser):
+            # length-prefixed UTF-8 string (avrcp): big-endian length of `length_size` bytes, then ASCII bytes
+            n, ls = shape.pop(0), parser.keywords['length_size']
+            return [Slot('const', 0) for _ in range(ls - 1)] + [Slot('const', n)] + [Slot('sym', mul=1, top=127) for _ in range(n)]
+        nl = inspect.getclosurevars(parser).nonlocals if (parser and not isinstance(parser, functools.partial)) else {}
         cls, size = nl.get('cls'), nl.get('size')
         if isinstance(cls, type) and issubclass(cls, enum.Enum) and isinstance(size, int):
             return [Slot('reps', reps=enum_reps(cls, size, nl.get('byteorder', 'little')))]
@@ -166,10 +171,16 @@ def nested_fields(spec):
     return None
 
 
+def _is_string_parser(parser) -> bool:
+    return isinstance(parser, functools.partial) and getattr(parser.func, '__name__', '') == '_parse_string'
+
+
 def is_variable(spec) -> bool:
     if isinstance(spec, dict):
         if 'size' in spec:
             return is_variable(spec['size'])
+        if _is_string_parser(spec.get('parser')):
+            return True
         return 'parser' in spec and is_variable(spec['parser'])
     if spec in ('*', 'v'):
         return True
@@ -300,6 +311,9 @@ class Family:
 
     def build(self, cls, vals: dict, parsed):
         return cls(**vals)
+
+    def tobytes(self, key, p) -> bytes:
+        return bytes(p)
 
     def label(self, key, cls) -> str:
         return cls.__name__
@@ -457,7 +471,55 @@ class Avdtp(Family):
         return None
 
 
-FAMILIES: Dict[str, Family] = {f.name: f for f in (HciCmd(), HciEvt(), HciLe(), HciCc(), Att(), Smp(), L2capSig(), Avdtp())}
+class AvrcpCmd(Family):
+    name = 'avrcpcmd'
+    kernels = ('bumble.avrcp.Command.from_bytes', 'bumble.avrcp.Command.__bytes__', 'bumble.hci.HCI_Object.dict_and_offset_from_bytes', 'bumble.hci.HCI_Object.dict_to_bytes')
+
+    def classes(self):
+        from bumble import avrcp
+        return {int(k): c for k, c in avrcp.Command.subclasses.items()}
+
+    def wrap(self, key, params):
+        return bytes([key]) + params
+
+    def parse(self, data):
+        from bumble import avrcp
+        return avrcp.Command.from_bytes(data[0], data[1:])
+
+    def tobytes(self, key, p):
+        return bytes([key]) + bytes(p)
+
+
+class AvrcpRsp(AvrcpCmd):
+    name = 'avrcprsp'
+    kernels = ('bumble.avrcp.Response.from_bytes', 'bumble.avrcp.Response.from_parameters', 'bumble.avrcp.Response.__bytes__', 'bumble.hci.HCI_Object.dict_and_offset_from_bytes', 'bumble.hci.HCI_Object.dict_to_bytes')
+
+    def classes(self):
+        from bumble import avrcp
+        return {int(k): c for k, c in avrcp.Response.subclasses.items() if c.from_parameters.__func__ is avrcp.Response.from_parameters.__func__}
+
+    def parse(self, data):
+        from bumble import avrcp
+        return avrcp.Response.from_bytes(data[1:], avrcp.PduId(data[0]))
+
+
+class AvrcpEvt(Family):
+    name = 'avrcpevt'
+    kernels = ('bumble.avrcp.Event.from_bytes', 'bumble.avrcp.Event.__bytes__', 'bumble.hci.HCI_Object.dict_and_offset_from_bytes', 'bumble.hci.HCI_Object.dict_to_bytes')
+
+    def classes(self):
+        from bumble import avrcp
+        return {int(k): c for k, c in avrcp.Event.subclasses.items()}
+
+    def wrap(self, key, params):
+        return bytes([key]) + params
+
+    def parse(self, data):
+        from bumble import avrcp
+        return avrcp.Event.from_bytes(data)
+
+
+FAMILIES: Dict[str, Family] = {f.name: f for f in (HciCmd(), HciEvt(), HciLe(), HciCc(), Att(), Smp(), L2capSig(), Avdtp(), AvrcpCmd(), AvrcpRsp(), AvrcpEvt())}
 
 
 # ----------------------------------------------------------------------------------------------
@@ -512,12 +574,12 @@ def roundtrip(fam: str, key, params: List[int]) -> bool:
         return type(p3) is cls and all(veq(getattr(p3, n), vals[n]) for n in names)
     if type(p1) is not cls:
         return False
-    if bytes(p1) != data:
+    if f.tobytes(key, p1) != data:
         return False
     names = flat_names(f.fields(cls))
     vals = {n: getattr(p1, n) for n in names}
     p2 = f.build(cls, vals, p1)
-    b2 = bytes(p2)
+    b2 = f.tobytes(key, p2)
     if b2 != data:
         return False
     p3 = f.parse(b2)
